@@ -734,7 +734,7 @@ fn construct(src: &str) -> &'static str {
     }
     if lines.iter().any(|l| {
         let t = l.trim_start();
-        t.starts_with('~') || t.starts_with('≁') || (t.starts_with('|') && t.chars().nth(1).is_some_and(|c| c.is_uppercase()))
+        t.starts_with('~') || t.starts_with('≁') || (t.starts_with('|') && t.chars().nth(1).is_some_and(|c| c.is_uppercase()) && !src.contains('('))
     }) {
         return "data-def";
     }
@@ -1545,6 +1545,18 @@ fn gen_program(r: &mut Rng) -> (String, Vec<&'static str>) {
 
 /// hand-written seeds: earlier counterexamples and the constructs of the property's quantifier
 const SEEDS: &[&str] = &[
+    // multi-line layout: what still needs two passes after round 4 (C10-2, narrowed)
+    "[\n4]",
+    "({\nn})",
+    "(\n1|)[]",
+    "{(\n+|)}",
+    "((\n)|)",
+    "([\n]|)",
+    "(+\n|-)1",
+    "((¬\n|6)c)",
+    "⊃(∘\n)(⇌)°",
+    "⊃{0\n}{0}[]",
+    "(\n[(())])[\n3]",
     // multi-line layout: inputs that needed two passes before 934337b / 9655245 / 6d3ddf9 (C10-2)
     "[\n2\n4]",
     "[\n4] ",
